@@ -361,6 +361,10 @@ pub fn free_scenarios() -> Vec<&'static str> {
         "n=3 init=[(0, 1)] | connect(0,2) || connect(1,2) || q_deg(2)",
         "n=2 init=[(0, 0)] | disconnect(0,0) || q_deg(0); q_conn(0,0)",
         "n=3 init=[(0, 1), (2, 1)] | disconnect(0,1) || disconnect(2,1)",
+        // readers iterating a list while another thread makes it grow (reallocation) or shrink
+        "n=3 init=[(0, 1), (0, 2)] | connect(0,0); connect(0,1); connect(0,2); connect(0,0) || walk(0); q_conn(0,2); walk(0)",
+        "n=3 init=[(0, 1), (0, 2), (0, 0)] | disconnect(0,1); disconnect(0,0) || walk(0); q_conn(0,2); walk(0)",
+        "n=2 init=[(0, 1), (1, 0)] | walk(0) || walk(1) || connect(0,0)",
     ]
 }
 
@@ -402,8 +406,9 @@ where
                 lists: ob.n.iter().map(|x| (x.out.iter().map(|(k, e)| (*k, e.id)).collect(), x.inn.iter().map(|(k, e)| (*k, e.id)).collect())).collect(),
                 results: res,
                 unobservable: None,
+                walk: crate::core::check_invariant::<F>(&ob).first().map(|m| m.chars().filter(|c| !c.is_ascii_digit()).take(80).collect::<String>()),
             },
-            Err(p) => Outcome { lists: vec![], results: res, unobservable: Some(p) },
+            Err(p) => Outcome { lists: vec![], results: res, unobservable: Some(p), walk: None },
         }
     };
     let mut msgs = vec![];
